@@ -47,7 +47,8 @@ theorem readBlocks_torn_tail (f : Nat) (b : Block) (hw : b.WF) (r : Nat) (hr : r
         rw [take_blockCells_ge b r hge]; exact sizeField_hdr b hw _
       simp only [h0, h1, if_false, hsz]
       have hlt : r - 16 < b.plen := by omega
-      simp only [hlt, if_true]
+      have hp0 : ¬ b.plen = 0 := by have := hw.2.2.1; omega
+      simp only [hp0, hlt, if_true, if_false]
       by_cases h16 : r = 16
       · simp [h16, tailStop]
       · simp [h16, tailStop, h0, h1]
